@@ -1,9 +1,176 @@
 """C11 - kdtree results are independent of worker count, chunking and compression."""
+import functools
+import os
 from fractions import Fraction
+import numpy as np
 import gens
 from gens import repertoire, canon_triplets, canon_model
 from core import call_impl
 import customs
+
+# input kinds of the widened families (audit): container of the sequences, output format, kind of distance callable
+CONTS = ['list', 'tuple', 'list_npstr', 'ndarray_U', 'ndarray_object', 'series_default', 'series_shifted', 'series_permuted',
+         'series_string', 'series_stringdtype', 'index']
+OUTS = ['triplets', 'coo_matrix', 'ndarray']
+DKINDS = ['lambda', 'def', 'partial', 'object', 'method', 'npfloat', 'builtin']
+
+
+def container(kind, seqs, width=None):
+    """The sequences in the given container kind (positions are what the triplets refer to, whatever the labels are)."""
+    import pandas as pd
+    n = len(seqs)
+    if kind == 'tuple':
+        return tuple(seqs)
+    if kind == 'list_npstr':
+        return [np.str_(s) for s in seqs]
+    if kind == 'ndarray_U':
+        return np.array(list(seqs), dtype='<U%d' % max([width or 1] + [len(s) for s in seqs]))
+    if kind == 'ndarray_object':
+        a = np.empty(n, dtype=object)
+        a[:] = list(seqs)
+        return a
+    if kind == 'series_default':
+        return pd.Series(list(seqs), dtype=object)
+    if kind == 'series_shifted':
+        return pd.Series(list(seqs), index=range(5, 5 + n), dtype=object)
+    if kind == 'series_permuted':
+        return pd.Series(list(seqs), index=list(reversed(range(n))), dtype=object)
+    if kind == 'series_string':
+        return pd.Series(list(seqs), index=['r%d' % i for i in range(n)], dtype=object)
+    if kind == 'series_stringdtype':
+        return pd.Series(list(seqs), dtype='string')
+    if kind == 'index':
+        return pd.Index(list(seqs), dtype=object)
+    return list(seqs)
+
+
+def _apply(f, a, b):
+    return f(a, b)
+
+
+class _Dist:
+    """A distance given as an object with __call__ / as a bound method instead of a plain function."""
+
+    def __init__(self, f):
+        self.f = f
+
+    def __call__(self, a, b):
+        return self.f(a, b)
+
+    def dist(self, a, b):
+        return self.f(a, b)
+
+
+def distance_callable(which, kind):
+    """Model distance number `which` (customs.make) as a callable of the given kind; the values are the same for every kind."""
+    f = customs.make(which)
+    if kind == 'def':
+        def dist(a, b):
+            return f(a, b)
+        return dist
+    if kind == 'partial':
+        return functools.partial(_apply, f)
+    if kind == 'object':
+        return _Dist(f)
+    if kind == 'method':
+        return _Dist(f).dist
+    if kind == 'npfloat':
+        return lambda a, b: np.float64(f(a, b))
+    if kind == 'builtin' and which == 0:
+        from rapidfuzz.distance import Levenshtein as RL
+        return RL.distance                                    # a C function: no __code__, no closure
+    return f
+
+
+def band_lev(a, b, k):
+    """The Levenshtein distance of a and b if it is <= k, else None: the textbook dynamic programme restricted to the diagonals
+    |i - j| <= k (a cell outside the band is > k, and every cell on a path of cost <= k lies inside it).  Pure Python, independent
+    of the implementation; used as the specification where the extracted model is too slow (sequences of hundreds to 2**16 residues)."""
+    la, lb = len(a), len(b)
+    if abs(la - lb) > k:
+        return None
+    inf = k + 1
+    w = 2 * k + 1                                             # row i holds the columns j = i - k .. i + k at offsets 0 .. 2k
+    prev = [inf] * w
+    for j in range(0, min(lb, k) + 1):
+        prev[j + k] = j                                       # row 0: offset j - 0 + k
+    for i in range(1, la + 1):
+        cur = [inf] * w
+        ai = a[i - 1]
+        for o in range(w):
+            j = i - k + o
+            if j < 0 or j > lb:
+                continue
+            if j == 0:
+                v = i
+            else:
+                v = prev[o] + (ai != b[j - 1])                # diagonal: (i-1, j-1) has offset o in the previous row
+                if o + 1 < w and prev[o + 1] + 1 < v:         # (i-1, j): offset o + 1
+                    v = prev[o + 1] + 1
+                if o > 0 and cur[o - 1] + 1 < v:              # (i, j-1): offset o - 1
+                    v = cur[o - 1] + 1
+            cur[o] = v if v < inf else inf
+        prev = cur
+    d = prev[lb - la + k]
+    return d if d <= k else None
+
+
+def _py_custom(which, a, b, e):
+    """Value of model distance `which` on a pair at Levenshtein distance e (None for the weighted distance 4: not computed here)."""
+    if which == 0:
+        return Fraction(e)
+    if which == 1:
+        return Fraction(3 * e)
+    if which == 2:
+        return Fraction(e, 2)
+    if which == 3:
+        return Fraction(abs(len(a) - len(b)))
+    if which == 5:
+        return Fraction(0 if a == b else (sum(map(ord, a)) + sum(map(ord, b))) % 7)
+    return None
+
+
+_PY_MEMO = {}
+
+
+def py_truth(c):
+    key = (c['mode'], c['k'], c['which'] if c['mode'] == 'custom' else None, c['maxc'] if c['mode'] == 'custom' else None, tuple(c['seqs']))
+    if key not in _PY_MEMO:
+        if len(_PY_MEMO) > 64:
+            _PY_MEMO.clear()
+        _PY_MEMO[key] = _py_truth(c)
+    return _PY_MEMO[key]
+
+
+def _py_truth(c):
+    """The specification computed directly (all ordered pairs i != j; neighbour iff Levenshtein <= max_edits [and custom distance <=
+    max_custom_distance] / equal length and Hamming <= max_edits), canonical like canon_model.  Cross-checked against the extracted
+    model on the ordinary cases of every run."""
+    seqs, k = c['seqs'], c['k']
+    out = []
+    for i in range(len(seqs)):
+        for j in range(i + 1, len(seqs)):
+            a, b = seqs[i], seqs[j]
+            if c['mode'] == 'hamming':
+                if len(a) != len(b):
+                    continue
+                d = sum(1 for x, y in zip(a, b) if x != y)
+                if d > k:
+                    continue
+                d = Fraction(d)
+            else:
+                e = band_lev(a, b, k)
+                if e is None:
+                    continue
+                d = Fraction(e)
+                if c['mode'] == 'custom':
+                    d = _py_custom(c['which'], a, b, e)
+                    if d is None:
+                        raise ValueError('distance %d is not computed by py_truth' % c['which'])
+                    if c['maxc'] is not None and d > Fraction(c['maxc']):
+                        continue
+            out += [(i, j, d), (j, i, d)]
+    return sorted(out)
 
 
 def topm_ok(got, truth, m):
@@ -29,14 +196,58 @@ def topm_ok(got, truth, m):
     return None
 
 
+def _entry(x):
+    return Fraction(float(x)).limit_denominator(10 ** 6)
+
+
+def matrix_ok(m, n, truth, mr):
+    """m: the dense form of a coo_matrix / ndarray result.  Docstring of kdtree: C[j, i] = d for a reported (i, j, d), 0 where nothing is
+    reported, shape (len(seqs), len(seqs)); column i therefore shows the reported neighbours of sequence i at non-zero distance."""
+    if tuple(m.shape) != (n, n):
+        return 'matrix of shape %s, expected (%d, %d)' % (tuple(m.shape), n, n)
+    by_i = {}
+    for i, j, d in truth:
+        by_i.setdefault(i, {})[j] = d
+    for i in range(n):
+        t = by_i.get(i, {})
+        col = {j: _entry(m[j, i]) for j in range(n) if m[j, i] != 0}
+        if mr is None:
+            exp = {j: d for j, d in t.items() if d != 0}
+            if col != exp:
+                bad = sorted(set(col.items()) ^ set(exp.items()))[:4]
+                return 'column %d of the matrix differs from the neighbours of sequence %d (row, distance): %s' % (i, i, [(j, str(d)) for j, d in bad])
+            continue
+        for j, d in col.items():
+            if t.get(j) != d:
+                return 'matrix entry (%d,%d)=%s is not a true neighbour with exact distance' % (j, i, d)
+        # neighbours at distance 0 are invisible in a matrix; they are the closest ones, so a conforming result reports them first
+        zeros = sum(1 for d in t.values() if d == 0)
+        want = min(mr, len(t))
+        if len(col) != want - min(zeros, want):
+            return ('sequence %d shows %d non-zero neighbours in the matrix, expected min(%d, %d) minus the %d at distance 0' %
+                    (i, len(col), mr, len(t), min(zeros, want)))
+        omitted = [d for j, d in t.items() if d != 0 and j not in col]
+        if omitted and col and min(omitted) < max(col.values()):
+            return 'sequence %d: an omitted neighbour at distance %s is closer than a reported one at %s' % (i, min(omitted), max(col.values()))
+    return None
+
+
 def _kwargs(c):
     kw = dict(max_edits=c['k'], n_cpu=c['ncpu'], compression=c['comp'], max_returns=c['mr'])
     if c['mode'] == 'hamming':
         kw['custom_distance'] = 'hamming'
     elif c['mode'] == 'custom':
-        kw['custom_distance'] = customs.make(c['which'])
+        kw['custom_distance'] = distance_callable(c['which'], c.get('dk') or 'lambda')
         kw['max_custom_distance'] = float('inf') if c['maxc'] is None else c['maxc']
+    if c['mode'] != 'custom' and c.get('maxc_nc') and c['maxc'] is not None:
+        kw['max_custom_distance'] = c['maxc']                 # documented: ignored if no custom distance is supplied
+    if c.get('ot') and c['ot'] != 'triplets':
+        kw['output_type'] = c['ot']
     return kw
+
+
+def _arg(c):
+    return container(c.get('cont') or 'list', c['seqs'])
 
 
 def _request(c):
@@ -47,10 +258,20 @@ def _request(c):
     return ('api_brute_self_custom', [c['which'], c['k'], None if c['maxc'] is None else Fraction(c['maxc']), c['seqs']])
 
 
+def truths(ctx, cases):
+    """Expected neighbour lists: the extracted model, or (cases marked truth='spec_py': very long sequences) py_truth."""
+    model = [c for c in cases if c.get('truth') != 'spec_py']
+    outs = iter(ctx.oracle.run_parallel([_request(c) for c in model]))
+    return [py_truth(c) if c.get('truth') == 'spec_py' else canon_model(next(outs)) for c in cases]
+
+
 def _desc(c):
     return dict(seqs=c['seqs'], n_cpu=c['ncpu'], compression=c['comp'], max_returns=c['mr'], max_edits=c['k'], mode=c['mode'],
                 custom=customs.NAMES[c['which']] if c['mode'] == 'custom' else None, which=c['which'] if c['mode'] == 'custom' else None,
-                max_custom_distance=c['maxc'])
+                max_custom_distance=c['maxc'], container=c.get('cont') or 'list', output_type=c.get('ot') or 'triplets',
+                distance_kind=(c.get('dk') or 'lambda') if c['mode'] == 'custom' else None,
+                max_custom_distance_passed_without_custom_distance=bool(c.get('maxc_nc')) and c['mode'] != 'custom',
+                truth=c.get('truth') or 'model', inplace=c.get('inplace'), between=c.get('between'), family=c.get('fam'))
 
 
 def _undesc(r):
@@ -58,7 +279,9 @@ def _undesc(r):
     if which is None and r.get('custom') in customs.NAMES:
         which = customs.NAMES.index(r['custom'])
     return dict(seqs=list(r['seqs']), n=len(r['seqs']), ncpu=r['n_cpu'], comp=r['compression'], mr=r['max_returns'], k=r['max_edits'],
-                mode=r['mode'], which=which, maxc=r.get('max_custom_distance'))
+                mode=r['mode'], which=which, maxc=r.get('max_custom_distance'), cont=r.get('container'), ot=r.get('output_type'),
+                dk=r.get('distance_kind'), maxc_nc=r.get('max_custom_distance_passed_without_custom_distance'), truth=r.get('truth'),
+                inplace=r.get('inplace'), between=r.get('between'), fam=r.get('family'))
 
 
 def histories(rng, count):
@@ -105,34 +328,119 @@ def histories(rng, count):
 
 def judge(c, g, truth):
     """None, or (site, message) when the result g = call_impl(kdtree ...) of case c breaks the property (truth: model)."""
+    how = 'n_cpu=%d, compression=%d, max_returns=%s, %s' % (c['ncpu'], c['comp'], c['mr'], c['mode'])
+    for key, dflt in (('cont', 'list'), ('ot', 'triplets'), ('dk', 'lambda')):
+        if c.get(key) and c[key] != dflt and (key != 'dk' or c['mode'] == 'custom'):
+            how += ', %s' % c[key]
     if g[0] != 'ok':
         return ('nn.kdtree[n_cpu>len]' if c['ncpu'] > c['n'] else 'nn.kdtree[config]',
-                'kdtree(%d sequences, n_cpu=%d, compression=%d, max_returns=%s, %s) raised %s' %
-                (c['n'], c['ncpu'], c['comp'], c['mr'], c['mode'], g[1]))
-    got = canon_triplets(g[1])
+                'kdtree(%d sequences, %s) raised %s' % (c['n'], how, g[1]))
+    seqs = c['seqs'] if sum(map(len, c['seqs'])) < 4000 else ['%s.. (%d residues)' % (s[:12], len(s)) for s in c['seqs']]
+    if c.get('ot') and c['ot'] != 'triplets':
+        try:
+            m = g[1].toarray() if c['ot'] == 'coo_matrix' else np.asarray(g[1])
+            why = matrix_ok(m, len(c['seqs']), truth, c['mr'])
+        except Exception as e:
+            why = 'result not interpretable as a matrix: %r' % (e,)
+        if why:
+            return ('nn.kdtree[max_returns]' if c['mr'] is not None else 'nn.kdtree[config]',
+                    'kdtree result (%s) breaks the property: %s on %s' % (how, why, seqs))
+        return None
+    try:
+        got = canon_triplets(g[1])
+    except Exception as e:
+        return ('nn.kdtree[config]', 'kdtree result (%s) not interpretable as triplets: %r' % (how, e))
     if c['mr'] is None:
         if got != truth:
-            return ('nn.kdtree[config]', 'kdtree result depends on configuration: n_cpu=%d compression=%d mode=%s on %s: %s' %
-                    (c['ncpu'], c['comp'], c['mode'], c['seqs'], gens.diff_triplets(got, truth)))
+            return ('nn.kdtree[config]', 'kdtree result depends on configuration: %s on %s: %s' % (how, seqs, gens.diff_triplets(got, truth)))
     else:
         why = topm_ok(got, truth, c['mr'])
         if why:
-            return ('nn.kdtree[max_returns]', 'max_returns=%d contract broken (%s) on %s' % (c['mr'], why, c['seqs']))
+            return ('nn.kdtree[max_returns]', 'max_returns=%d contract broken (%s; %s) on %s' % (c['mr'], why, how, seqs))
     return None
+
+
+def inplace_histories(rng, count):
+    """Histories on ONE caller-owned object (list / ndarray / Series) that is refilled IN PLACE between the calls (same length): a
+    sliding window, a buffer that is reused.  Some steps leave the content as it is (the very same call again, or another configuration on
+    the same object), some swap two entries, some overwrite entries.  Between the kdtree calls, other engines of the module may be
+    called on the same object with a distance callable of their own (module-level state shared across functions).  Each kdtree call
+    must equal the model for the CONTENT AT THE TIME OF THE CALL and its own parameters."""
+    out = []
+    for h in range(count):
+        kind = ['ndarray_object', 'list', 'ndarray_U', 'series_shifted', 'series_default', 'list_npstr'][h % 6]
+        cur = repertoire(rng, rng.choice([5, 8, 12]))
+        order = rng.sample(range(6), 6)
+        k0 = rng.choice([1, 2, 2])
+        steps = []
+        for s in range(rng.randint(3, 5)):
+            how = rng.random()
+            if s > 0 and 0.2 <= how < 0.4 and len(cur) > 1:
+                i, j = rng.sample(range(len(cur)), 2)
+                cur[i], cur[j] = cur[j], cur[i]
+            elif s > 0 and how >= 0.4 and len(cur) > 1:
+                # overwrite entries by a copy / a one- or two-edit variant of ANOTHER entry: new neighbour pairs at these positions
+                for i in rng.sample(range(len(cur)), rng.randint(1, max(1, len(cur) // 2))):
+                    cur[i] = gens.mutate(rng, rng.choice(cur[:i] + cur[i + 1:]), gens.AA, rng.randint(0, 2))
+            if s > 0 and rng.random() < 0.6:
+                # the usual way a reused buffer is processed: the very same configuration again on the new content
+                st = dict(steps[-1], seqs=list(cur), between=rng.choice([None, None, 'symdel', 'hash_based', 'nearest_neighbor']))
+                if rng.random() < 0.4:
+                    st['ncpu'] = rng.choice([1, 2, 3])
+                steps.append(st)
+                continue
+            mode = 'custom' if rng.random() < 0.5 else rng.choice(['default', 'default', 'hamming'])
+            steps.append(dict(n=len(cur), ncpu=1 if s == 0 else rng.choice([1, 2, 2, 3]), mode=mode, seqs=list(cur),
+                              comp=rng.choice([1, 1, 2, 5, 20]), mr=rng.choice([None, None, None, 1, 2]),
+                              k=k0 if rng.random() < 0.8 else rng.choice([1, 2]), which=order[s], maxc=rng.choice([None, None, 1, 1.5, 2, 3]),
+                              dk=rng.choice(DKINDS), inplace=kind, fam='inplace_history',
+                              between=rng.choice([None, None, 'symdel', 'hash_based', 'nearest_neighbor']) if s > 0 else None))
+        if all(st['ncpu'] == 1 for st in steps[1:]):
+            steps[-1]['ncpu'] = rng.choice([2, 3])
+        out.append(steps)
+    return out
+
+
+def exec_history(nn, steps):
+    """Runs the kdtree calls of one history in this process, in order; yields (t, step, result of call_impl)."""
+    kind = steps[0].get('inplace')
+    obj = None
+    if kind:
+        width = max(len(s) for st in steps for s in st['seqs'])
+        obj = container(kind, steps[0]['seqs'], width=width)
+    for t, c in enumerate(steps):
+        if kind and t > 0:
+            for i, s in enumerate(c['seqs']):                   # refill the caller's object in place
+                if kind.startswith('series'):
+                    obj.iloc[i] = s
+                else:
+                    obj[i] = np.str_(s) if kind == 'list_npstr' else s
+        if c.get('between'):
+            # another engine on the same object with ANOTHER distance callable (its result belongs to other properties)
+            other = customs.make(((c['which'] if c['mode'] == 'custom' else 0) + 1) % 6)
+            call_impl(lambda: getattr(nn, c['between'])(obj if kind else list(c['seqs']), max_edits=1, custom_distance=other))
+        yield t, c, call_impl(lambda: nn.kdtree(obj if kind else _arg(c), **_kwargs(c)))
 
 
 def run_histories(ctx, nn, hists):
     """Runs every history step by step in this process; reports the first broken step of a history with the calls before it."""
     flat = [st for steps in hists for st in steps]
-    outs = iter(ctx.oracle.run_parallel([_request(st) for st in flat]))
+    outs = iter(truths(ctx, flat))
     for steps in hists:
-        truths = [canon_model(next(outs)) for _ in steps]
+        exp = [next(outs) for _ in steps]
         broken = False
-        for t, (c, truth) in enumerate(zip(steps, truths)):
-            g = call_impl(lambda: nn.kdtree(list(c['seqs']), **_kwargs(c)))
+        for t, c, g in exec_history(nn, steps):
+            truth = exp[t]
             nt = bool(truth) and t > 0
-            ctx.count('history step mode=' + c['mode'])
-            ctx.count('history step n_cpu=1' if c['ncpu'] == 1 else 'history step n_cpu>1')
+            pre = 'in-place history' if c.get('inplace') else 'history'
+            ctx.count(pre + ' step mode=' + c['mode'])
+            ctx.count(pre + (' step n_cpu=1' if c['ncpu'] == 1 else ' step n_cpu>1'))
+            if c.get('inplace'):
+                ctx.count('in-place history object=' + c['inplace'])
+                if t > 0:
+                    ctx.count('in-place history step: ' + ('content unchanged' if c['seqs'] == steps[t - 1]['seqs'] else 'content modified'))
+                if c.get('between'):
+                    ctx.count('in-place history: other engine called in between')
             desc = _desc(c)
             ctx.case(sample=dict(desc, history_step=t) if nt else None,
                      nontrivial_key=('history', t) + tuple(sorted((k_, str(v)) for k_, v in desc.items())) if nt else None)
@@ -140,10 +448,139 @@ def run_histories(ctx, nn, hists):
             if bad and not broken:
                 broken = True                                  # later steps of a broken history are not independent evidence
                 before = [_desc(x) for x in steps[:t]]
-                ctx.violation('property', 'call %d of a history of kdtree calls in one process (earlier calls: %s): %s' %
-                              (t + 1, '; '.join('%s%s n_cpu=%d' % (b['mode'], '' if b['custom'] is None else '[' + b['custom'] + ']',
-                                                                     b['n_cpu']) for b in before) or 'none', bad[1]),
+                ctx.violation('property', 'call %d of a history of kdtree calls in one process%s (earlier calls: %s): %s' %
+                              (t + 1, ' on one %s refilled in place' % c['inplace'] if c.get('inplace') else '',
+                               '; '.join('%s%s n_cpu=%d' % (b['mode'], '' if b['custom'] is None else '[' + b['custom'] + ']',
+                                                            b['n_cpu']) for b in before) or 'none', bad[1]),
                               dict(desc, history=before + [desc]), site=bad[0])
+
+
+def _edit(rng, s, op, alphabet=gens.AA):
+    j = rng.randrange(len(s))
+    if op == 'ins':
+        return s[:j] + rng.choice(alphabet) + s[j:]
+    if op == 'del':
+        return s[:j] + s[j + 1:]
+    return s[:j] + rng.choice([x for x in alphabet if x != s[j]]) + s[j + 1:]
+
+
+def wide_cases(ctx, rng):
+    """Case families added by the coverage audit (NOTES.md): input kinds the property quantifies over that the families above never
+    produce.  Every case carries fam=...; expected values from the extracted model, or from py_truth for very long sequences."""
+    import c07
+    q = ctx.quick
+    out = []
+
+    def case(fam, seqs, **kw):
+        c = dict(n=len(seqs), ncpu=1, mode='default', seqs=list(seqs), comp=1, mr=None, k=1, which=0, maxc=None, fam=fam)
+        c.update(kw)
+        if c['mode'] == 'custom' and c.get('truth') == 'spec_py' and c['which'] == 4:
+            c['which'] = 2
+        if c['mode'] == 'custom' and c.get('dk') == 'builtin':
+            c['which'] = 0                                      # the C function is the plain Levenshtein distance
+        out.append(c)
+        return c
+
+    # (A) container kind x output format x kind of distance callable x max_custom_distance (0, fractional, float-typed) x compression
+    #     beyond the alphabet size x max_custom_distance given although no custom distance is, all under a non-default configuration
+    for t in range(55 if q else 700):
+        mode = ['default', 'hamming', 'custom'][t % 3]
+        n = rng.choice([2, 3, 4, 6, 9, 13, 20])
+        seqs = c07.ham_repertoire(rng, n) if mode == 'hamming' else repertoire(rng, n)
+        c = case('wide', seqs, mode=mode, ncpu=rng.choice([1, 2, 2, 3, 4]), comp=rng.choice([1, 2, 4, 20, 26, 40, 100, 1000]),
+                 mr=rng.choice([None, None, 1, 2, 5]), k=rng.choice([1, 2, 3]), which=rng.randrange(6),
+                 maxc=rng.choice([None, 0, 0.5, 1, 1.5, 2, 2.5, 3.0, 6]), cont=CONTS[t % len(CONTS)], ot=OUTS[(t // 3) % 3],
+                 dk=DKINDS[(t // 3) % len(DKINDS)], maxc_nc=(t // 3) % 2 == 0)
+        if mode == 'custom' and c['dk'] != 'builtin' and rng.random() < 0.6:
+            # thresholds that some pair is likely to sit exactly on / just beside: lev/2 against 0.5, 1.5, ...; 0 against duplicates
+            c['which'], c['maxc'] = rng.choice([(2, 0.5), (2, 1.5), (2, 1.0), (2, 1), (2, 2.5), (0, 0), (5, 0), (1, 3.0), (4, 2.5), (4, 4.0), (3, 0.5)])
+            c['k'] = rng.choice([2, 3])
+        if c['ncpu'] == 1 and c['comp'] == 1 and c['mr'] is None:
+            c['ncpu'] = 2
+    # (B) worker counts around the number of sequences (n - 1, n, n + 1, 2n) and one far beyond it
+    for t in range(9 if q else 120):
+        mode = ['default', 'hamming', 'custom'][t % 3]
+        n = rng.randint(2, 9)
+        seqs = (c07.ham_repertoire(rng, n) if mode == 'hamming' else repertoire(rng, n))
+        n = len(seqs)
+        ncpu = max(1, [n - 1, n, n + 1, 2 * n][(t // 3) % 4]) if t else 32
+        case('n_cpu_near_n', seqs, mode=mode, ncpu=ncpu, comp=rng.choice([1, 3]), mr=rng.choice([None, 1]), k=rng.choice([1, 2]),
+             which=rng.randrange(6), maxc=rng.choice([None, 2]), cont=rng.choice(CONTS))
+    # (C) many sequences (beyond 127 / 255 sequences, KD-tree of several levels, chunks of hundreds of queries)
+    for t, n in enumerate([130, 260] if q else [130, 200, 255, 256, 257, 300, 400, 400, 1000]):
+        mode = ['default', 'custom', 'hamming'][t % 3]
+        seqs = c07.ham_repertoire(rng, n) if mode == 'hamming' else repertoire(rng, n)
+        case('many_sequences', seqs, mode=mode, ncpu=rng.choice([2, 3, 4]), comp=rng.choice([1, 2, 5]), mr=rng.choice([None, 3]),
+             k=rng.choice([1, 2]), which=rng.choice([1, 2, 4]), maxc=rng.choice([None, 3]), cont=rng.choice(['list', 'ndarray_U', 'series_shifted']))
+    # (D) one sequence with very many neighbours and max_returns up to / at / beyond their number
+    for t in range(3 if q else 40):
+        mode = ['default', 'hamming', 'custom'][t % 3]
+        root = 'C' + ''.join(rng.choice(gens.AA) for _ in range(rng.randint(8, 13))) + 'F'
+        cnt = rng.randint(40, 90) if q else rng.randint(40, 300)
+        seqs = [root] + [_edit(rng, root, 'sub' if mode == 'hamming' else rng.choice(['sub', 'ins', 'del'])) for _ in range(cnt)]
+        seqs += [root] * rng.randint(0, 3) + repertoire(rng, rng.randint(0, 5))
+        rng.shuffle(seqs)
+        case('hub', seqs, mode=mode, ncpu=rng.choice([1, 2, 3]), comp=rng.choice([1, 2, 20]),
+             mr=rng.choice([cnt - 1, cnt, cnt + 1, cnt + 50, cnt // 2, 10, 33, 64, 65]), k=rng.choice([1, 2]), which=rng.choice([0, 2, 3, 5]),
+             maxc=None, ot=rng.choice(OUTS))
+    # (E) long sequences beyond the reach of the model (hundreds to thousands of residues) in all three modes: expected values from py_truth
+    for t in range(4 if q else 60):
+        mode = ['default', 'hamming', 'custom', 'default'][t % 4]
+        L = rng.choice([257, 300, 513, 700] if q else [257, 300, 513, 700, 1000, 1025, 2000, 4100])
+        s1 = ''.join(rng.choice(gens.AA[:rng.choice([1, 2, 3, 20])]) for _ in range(L))
+        ops = ['sub'] if mode == 'hamming' else ['sub', 'ins', 'del']
+        seqs = [s1] + [_edit(rng, s1, rng.choice(ops)) for _ in range(2)]
+        seqs += [_edit(rng, _edit(rng, s1, rng.choice(ops)), rng.choice(ops)), _edit(rng, _edit(rng, _edit(rng, s1, 'sub'), 'sub'), 'sub'), s1]
+        rng.shuffle(seqs)
+        for comp in (1, rng.choice([2, 7, 20, 25])):
+            case('long_sequences_spec_py', seqs, mode=mode, ncpu=rng.choice([1, 2]), comp=comp, mr=rng.choice([None, None, 2]),
+                 k=rng.choice([1, 2, 3]), which=rng.choice([0, 1, 2, 3, 5]), maxc=rng.choice([None, 1, 3]), truth='spec_py')
+    # (F) bin counts on both sides of 127/128 and 255/256 at EQUAL length (Hamming and custom modes): one residue exchanged for the
+    #     frequent one moves its count across the byte boundary while the length stays
+    for t in range(4 if q else 40):
+        mode = ['hamming', 'custom'][t % 2]
+        big = rng.choice([127, 255])
+        x, y, z = rng.sample(gens.AA, 3)
+        body = list(x * big + y * rng.randint(3, 9) + z * rng.randint(0, 4))
+        rng.shuffle(body)
+        s1 = ''.join(body)
+        j = s1.index(y)
+        s2 = s1[:j] + x + s1[j + 1:]                            # count of x: big -> big + 1
+        j = s2.index(y) if y in s2 else 0
+        s3 = s2[:j] + x + s2[j + 1:]                            # big + 2
+        seqs = [s1, s2, s3, _edit(rng, s1, 'sub'), s1[1:]]
+        rng.shuffle(seqs)
+        for comp in (1, rng.choice([1, 2, 20])):
+            case('byte_boundary_equal_length', seqs, mode=mode, ncpu=rng.choice([1, 2]), comp=comp, mr=rng.choice([None, None, 1]),
+                 k=rng.choice([1, 2]), which=rng.choice([0, 2, 5]), maxc=None, truth='spec_py')
+    # (G) 2**15 (and 2**16 in the thorough tier) residues in one bin: counts beyond 16-bit integers
+    for P in ([15] if q else [15, 15, 16]):
+        N = 2 ** P
+        x, y = rng.sample(gens.AA, 2)
+        seqs = [x * (N - 1), x * N, x * (N + 1), x * (N - 1) + y, y + x * (N - 2)]
+        rng.shuffle(seqs)
+        for mode, comp, ncpu in (('default', 1, 1), ('default', 20, 2), ('hamming', rng.choice([1, 3]), rng.choice([1, 2]))):
+            case('two_to_the_%d_residues' % P, seqs, mode=mode, ncpu=ncpu, comp=comp, k=rng.choice([1, 2]), truth='spec_py')
+    # (H) Hamming mode: every sequence of another length (buckets of one sequence each, workers > bucket size), and all of one length
+    for t in range(4 if q else 40):
+        if t % 2 == 0:
+            lens = rng.sample(range(1, 15), rng.randint(2, 9))
+            seqs = [''.join(rng.choice(gens.AA) for _ in range(L)) for L in lens]
+        else:
+            L = rng.randint(3, 9)
+            root = ''.join(rng.choice(gens.AA) for _ in range(L))
+            seqs = [_edit(rng, _edit(rng, root, 'sub'), 'sub') for _ in range(rng.randint(2, 12))]
+        case('hamming_buckets', seqs, mode='hamming', ncpu=rng.choice([2, 3] if q else [2, 3, 5]), comp=rng.choice([1, 4]), mr=rng.choice([None, 1, 2]),
+             k=rng.choice([1, 2, 3]), cont=rng.choice(CONTS), ot=rng.choice(OUTS))
+    # (I) pairs exactly on the pre-filter radius in Hamming and custom modes (the family above runs them in default mode only)
+    for t in range(6 if q else 60):
+        k = rng.randint(1, 6 if q else 12)
+        x, y = rng.sample(gens.AA, 2)
+        seqs = ['C' + x * k + 'F', 'C' + y * k + 'F', 'C' + x * (k - 1) + y + 'F', 'C' + x * k + y + 'F']
+        rng.shuffle(seqs)
+        case('on_radius_modes', seqs, mode=['hamming', 'custom'][t % 2], ncpu=rng.choice([1, 2]), comp=rng.choice([1, 1, 2, 7, 20]),
+             k=k, which=rng.choice([0, 1, 2, 5]), maxc=None, dk=rng.choice(DKINDS), ot=rng.choice(OUTS))
+    return out
 
 
 def run(ctx):
@@ -154,7 +591,16 @@ def run(ctx):
                 'every result compared with the model (= single-process uncompressed semantics) and, for max_returns, with the '
                 'top-m contract; plus call HISTORIES (3-6 consecutive kdtree calls in one process on the same / overlapping sequences with different '
                 'custom distance callables, max_custom_distance, modes, n_cpu = 1 first and then 1 or > 1), every call compared with the '
-                'model for its own parameters. non-trivial := (n_cpu > 1 or compression > 1 or max_returns given, or the call is a later '
+                'model for its own parameters; plus the audit families (fam=...): container kind (list, tuple, list of np.str_, ndarray <U / object, '
+                'Series with default / shifted / reversed / string index / string dtype, Index) x output_type (triplets, coo_matrix, ndarray; '
+                'matrices judged column by column) x kind of distance callable (lambda, def, partial, object, bound method, NumPy-valued, C '
+                'function) x max_custom_distance in {0, fractional, float-typed, given without custom distance} x compression up to 1000; '
+                'n_cpu in {n-1, n, n+1, 2n, 32}; 130-260 (thorough: 1000) sequences; one sequence with 40-300 neighbours and max_returns '
+                'around their number; sequences of 257-4100 and 2**15 (2**16) residues and bin counts across 127/128, 255/256 at equal '
+                'length in Hamming / custom mode (expected values: direct computation of the specification, cross-checked with the model on '
+                'the ordinary cases); Hamming buckets of one sequence / one bucket; on-radius pairs in Hamming / custom mode; histories on ONE '
+                'list / ndarray / Series refilled in place between the calls, other engines called in between. '
+                'non-trivial := (n_cpu > 1 or compression > 1 or max_returns given, or the call is a later '
                 'step of a history) and the expected result is non-empty')
     cases = []
     sizes = list(range(1, 13)) + [16, 17, 23, 31, 40]
@@ -203,17 +649,42 @@ def run(ctx):
         for comp in (1, 20, rng.choice([16, 25])):
             cases.append(dict(n=len(seqs), ncpu=rng.choice([1, 2]), mode='default', seqs=list(seqs), comp=comp, mr=None, k=rng.choice([1, 2]),
                               which=0, maxc=None))
-    outs = ctx.oracle.run_parallel([_request(c) for c in cases])
+    cases += wide_cases(ctx, rng)
+    exp = truths(ctx, cases)
     exact_same = 0
-    for c, exp in zip(cases, outs):
-        truth = canon_model(exp)
-        g = call_impl(lambda: nn.kdtree(list(c['seqs']), **_kwargs(c)))
+    # the directly computed specification (used for the very long sequences) must agree with the extracted model where both are available
+    xc = [(c, e) for c, e in zip(cases, exp) if c.get('truth') != 'spec_py' and not (c['mode'] == 'custom' and c['which'] == 4)
+          and sum(map(len, c['seqs'])) < 600][:40 if ctx.quick else 400]
+    for c, e in xc:
+        if py_truth(c) != e:
+            raise RuntimeError('harness self-check: py_truth and the extracted model disagree on %r' % (_desc(c),))
+    ctx.count('spec_py cross-checked with the model', len(xc))
+    for c, truth in zip(cases, exp):
+        g = call_impl(lambda: nn.kdtree(_arg(c), **_kwargs(c)))
         nt = bool(truth) and (c['ncpu'] > 1 or c['comp'] > 1 or c['mr'] is not None)
         ctx.count('n_cpu>len' if c['ncpu'] > c['n'] else ('n_cpu=1' if c['ncpu'] == 1 else 'n_cpu>1'))
         ctx.count('mode=' + c['mode'])
-        ctx.count('max_returns=%s' % c['mr'])
+        ctx.count('max_returns=%s' % (c['mr'] if c['mr'] is None or c['mr'] <= 7 else '>7'))
+        if c.get('fam'):
+            ctx.count('family=' + c['fam'])
+            ctx.count('container=' + (c.get('cont') or 'list'))
+            ctx.count('output=' + (c.get('ot') or 'triplets'))
+            if c['mode'] == 'custom':
+                ctx.count('distance callable=' + (c.get('dk') or 'lambda'))
+                ctx.count('max_custom_distance ' + ('inf' if c['maxc'] is None else 'fractional' if c['maxc'] != int(c['maxc']) else
+                                                    'float-typed' if isinstance(c['maxc'], float) else 'int'))
+            elif c.get('maxc_nc') and c['maxc'] is not None:
+                ctx.count('max_custom_distance passed without custom distance')
+            if (c.get('ot') or 'triplets') != 'triplets' and c['mr'] is not None:
+                ctx.count('matrix output with max_returns')
+            if c['comp'] > 25:
+                ctx.count('compression>25')
         desc = _desc(c)
-        ctx.case(sample=desc if nt else None, nontrivial_key=tuple(sorted((k_, str(v)) for k_, v in desc.items())) if nt else None)
+        if len(desc['seqs']) and sum(map(len, desc['seqs'])) > 4000:
+            desc_s = None                                       # very long sequences: not stored as evidence samples
+        else:
+            desc_s = desc
+        ctx.case(sample=desc_s if nt else None, nontrivial_key=tuple(sorted((k_, str(v)) for k_, v in desc.items())) if nt else None)
         bad = judge(c, g, truth)
         if bad:
             ctx.violation('property', bad[1], desc, site=bad[0])
@@ -237,6 +708,7 @@ def run(ctx):
                                                        note='exact list order incl. tie order; auxiliary, never decides')
     # call histories: state left behind by one call (parameter block, pools, caches) must not reach the next one
     run_histories(ctx, nn, histories(rng, 8 if ctx.quick else 150))
+    run_histories(ctx, nn, inplace_histories(rng, 12 if ctx.quick else 100))
     ctx.assumptions += ['multiprocessing.Pool.map returns results in task order for any chunksize >= 1 (modelled contract)',
                         'fork start method: workers inherit the module-level parameter block',
                         'which OS interleaving occurs is not controlled; the theorem covers every schedule of the modelled pool']
@@ -250,11 +722,10 @@ def replay(ctx, obj):
     for st in steps:
         if st['mode'] == 'custom' and st['which'] is None:
             st['mode'], st['maxc'] = 'default', None           # replay files written before the distance index was recorded
-    outs = ctx.oracle.run([_request(st) for st in steps])
-    for t, (c, exp) in enumerate(zip(steps, outs)):
-        g = call_impl(lambda: nn.kdtree(list(c['seqs']), **_kwargs(c)))
+    exp = truths(ctx, steps)
+    for t, c, g in exec_history(nn, steps):
         ctx.case(sample=_desc(c))
-        bad = judge(c, g, canon_model(exp))
+        bad = judge(c, g, exp[t])
         if bad:
             ctx.violation('property', 'replay, call %d of %d: %s' % (t + 1, len(steps), bad[1]), r, site=bad[0])
             break
